@@ -58,6 +58,44 @@ pub fn gen_line(rng: &mut Rng) -> String {
     }
 }
 
+/// a line calling the real `exit` / `goto`: codes at and around the limits of i32, padded, signed,
+/// empty, non-ASCII digits, from variables; labels with and without the colon, several, empty ones
+fn gen_real_line(rng: &mut Rng) -> String {
+    const CODES: [&str; 30] = ["0", "1", "-1", "+1", "7", "255", "256", "-0", "+0", "000", "007", "2147483647", "2147483648", "-2147483648", "-2147483649", "99999999999", "\"1 \"", "\" 3\"", "\"2\\n\"", "\"\"", "1.0", "1e1", "0x1", "abc", "--1", "+-1", "+", "-", "\u{663}", "1_0"];
+    let mut s = String::new();
+    if rng.chance(1, 4) {
+        s.push_str(*rng.pick(&LABELS));
+        s.push(' ');
+    }
+    if rng.chance(1, 3) {
+        s.push_str(*rng.pick(&VARS));
+        s.push_str(" = ");
+    }
+    if rng.chance(1, 2) {
+        s.push_str(rng.pick_s(&["exit", "quit", "q", "std::process::Exit"]));
+        match rng.below(6) {
+            0 => {}
+            1 => { s.push(' '); s.push_str(&format!("${{{}}}", rng.pick(&VARS))); }
+            2 => { s.push(' '); s.push_str(rng.pick_s(&CODES)); s.push(' '); s.push_str(rng.pick_s(&CODES)); }
+            _ => { s.push(' '); s.push_str(rng.pick_s(&CODES)); }
+        }
+    } else {
+        s.push_str(rng.pick_s(&["goto", "goto", "std::flowcontrol::GoTo"]));
+        for _ in 0..rng.pick_s(&["0", "1", "1", "1", "1", "2", "3"]).parse::<usize>().unwrap() {
+            s.push(' ');
+            match rng.below(8) {
+                0 => s.push_str("\"\""),
+                1 => s.push_str(&rng.pick(&LABELS)[1..]),
+                2 => s.push_str(&format!("${{{}}}", rng.pick(&VARS))),
+                3 => s.push_str(":undefined"),
+                4 => s.push_str(&format!("%{{{}}}", rng.pick(&VARS))),
+                _ => s.push_str(*rng.pick(&LABELS)),
+            }
+        }
+    }
+    s
+}
+
 pub fn gen_result(rng: &mut Rng, nlines: usize, k: usize) -> String {
     let v = |rng: &mut Rng| -> String {
         match rng.below(4) {
@@ -94,15 +132,20 @@ pub fn gen_program(rng: &mut Rng, max_lines: usize) -> (String, usize) {
 }
 
 pub fn mk_req(text: &str, names: &[String], queue: &[String], halt_at: Option<usize>, vars: &[(String, String)], fuel: usize) -> String {
+    mk_req_op("run", text, names, queue, halt_at, vars, fuel)
+}
+
+pub fn mk_req_op(op: &str, text: &str, names: &[String], queue: &[String], halt_at: Option<usize>, vars: &[(String, String)], fuel: usize) -> String {
     let vs = if vars.is_empty() { "-".to_string() } else { vars.iter().map(|(k, v)| format!("{}={}", enc_str(k), enc_str(v))).collect::<Vec<_>>().join(",") };
     format!(
-        "run {} {} {} {} {} {}",
-        enc_str(text), enc_list(names), if queue.is_empty() { "-".to_string() } else { queue.join(",") },
+        "{} {} {} {} {} {} {}",
+        op, enc_str(text), enc_list(names), if queue.is_empty() { "-".to_string() } else { queue.join(",") },
         halt_at.map(|k| k.to_string()).unwrap_or("-".to_string()), vs, fuel
     )
 }
 
 pub struct RunReq {
+    pub op: String,
     pub text: String,
     pub names: Vec<String>,
     pub queue: Vec<String>,
@@ -114,6 +157,7 @@ pub struct RunReq {
 pub fn parse_req(req: &str) -> RunReq {
     let t: Vec<&str> = req.split(' ').collect();
     RunReq {
+        op: t[0].to_string(),
         text: dec_str(t[1]).unwrap(),
         names: dec_list(t[2]).unwrap(),
         queue: if t[3] == "-" { vec![] } else { t[3].split(',').map(|s| s.to_string()).collect() },
@@ -131,25 +175,25 @@ pub fn shrink_run(req: &str) -> Vec<String> {
         for i in 0..lines.len() {
             let mut l = lines.clone();
             l.remove(i);
-            out.push(mk_req(&l.join("\n"), &r.names, &r.queue, r.halt_at, &r.vars, r.fuel));
+            out.push(mk_req_op(&r.op, &l.join("\n"), &r.names, &r.queue, r.halt_at, &r.vars, r.fuel));
         }
     }
     for i in 0..r.queue.len() {
         let mut q = r.queue.clone();
         q.remove(i);
-        out.push(mk_req(&r.text, &r.names, &q, r.halt_at, &r.vars, r.fuel));
+        out.push(mk_req_op(&r.op, &r.text, &r.names, &q, r.halt_at, &r.vars, r.fuel));
     }
     for i in 0..r.queue.len() {
         if r.queue[i] != "C/-" {
             let mut q = r.queue.clone();
             q[i] = "C/-".to_string();
-            out.push(mk_req(&r.text, &r.names, &q, r.halt_at, &r.vars, r.fuel));
+            out.push(mk_req_op(&r.op, &r.text, &r.names, &q, r.halt_at, &r.vars, r.fuel));
         }
     }
     for i in 0..r.vars.len() {
         let mut v = r.vars.clone();
         v.remove(i);
-        out.push(mk_req(&r.text, &r.names, &r.queue, r.halt_at, &v, r.fuel));
+        out.push(mk_req_op(&r.op, &r.text, &r.names, &r.queue, r.halt_at, &v, r.fuel));
     }
     out
 }
@@ -340,7 +384,19 @@ impl Prop for C03Prop {
         if rng.chance(1, 4) {
             return gen_dyn(rng);
         }
-        let (text, n) = gen_program(rng, 25);
+        // one case in six: the REAL `exit` / `goto` of the SDK among the scripted commands (op
+        // `runx`, lean/DuckModel/Sdk/ProcessCmd.lean) — what they accept decides what a script
+        // can hand the runner as an exit value / a jump target
+        let real = rng.chance(1, 6);
+        let (mut text, n) = gen_program(rng, 25);
+        if real {
+            let mut lines: Vec<String> = text.split('\n').map(|s| s.to_string()).collect();
+            for _ in 0..1 + rng.below(3) {
+                let at = rng.below(lines.len());
+                lines[at] = gen_real_line(rng);
+            }
+            text = lines.join("\n");
+        }
         let mut names: Vec<String> = CMDS.iter().map(|s| s.to_string()).collect();
         let on_error = rng.chance(1, 2);
         if on_error {
@@ -367,13 +423,22 @@ impl Prop for C03Prop {
                 _ => {}
             }
         }
-        Case { req: mk_req(&text, &names, &queue, None, &vars, fuel), in_domain: true, nontrivial, tags }
+        if real { tags.push("real-exit-goto"); }
+        Case { req: mk_req_op(if real { "runx" } else { "run" }, &text, &names, &queue, None, &vars, fuel), in_domain: true, nontrivial: nontrivial || real, tags }
     }
-    fn run_impl(&self, req: &str, _model: &str) -> String {
+    fn run_impl(&self, req: &str, model: &str) -> String {
         if req.starts_with("runm ") {
             return run_dyn_req(req);
         }
         let r = parse_req(req);
+        if r.op == "runx" {
+            // a loop of real `goto`s uses no scripted result and never ends: the (total) model
+            // runs out of fuel, and the implementation is not started at all
+            if model.starts_with("fuel") {
+                return model.to_string();
+            }
+            return crate::scripted::run_scripted_with(&r.text, None, &r.names, &r.queue.join(","), r.halt_at, &r.vars, &["exit", "goto"]);
+        }
         run_scripted(&r.text, None, &r.names, &r.queue.join(","), r.halt_at, &r.vars)
     }
     fn shrink(&self, req: &str) -> Vec<String> {
